@@ -86,7 +86,7 @@ pub fn c02(ctx: &Ctx, rep: &mut Report) {
         };
         Case {
             opts: [OptsSpec { rwnd: 4, thr: 2, ..OptsSpec::default() }, OptsSpec { rwnd: 3, thr: 1, ..OptsSpec::default() }],
-            streams: vec![StreamSpec { side, port: 80, pad: vec![], delay: 0, park: None, ends: [EndScript { w: vec![WOp::Write(2), big, WOp::Write(3), WOp::Shutdown], r: vec![ROp::ToEof(65_536)] }, EndScript { w: vec![WOp::Write(1), WOp::Shutdown], r: vec![ROp::Read(7), ROp::ToEof(1 << 20)] }] }],
+            streams: vec![StreamSpec { side, port: 80, pad: vec![], delay: 0, park: None, cancel: None, ends: [EndScript { w: vec![WOp::Write(2), big, WOp::Write(3), WOp::Shutdown], r: vec![ROp::ToEof(65_536)] }, EndScript { w: vec![WOp::Write(1), WOp::Shutdown], r: vec![ROp::Read(7), ROp::ToEof(1 << 20)] }] }],
             ..Case::default()
         }
     }, run_c02);
@@ -257,7 +257,7 @@ fn matrix_case(i: u64) -> Case {
             port: 80,
             pad: vec![],
             delay: 0,
-            park: None,
+            park: None, cancel: None,
             ends: [EndScript { w: burst(&ob, &oa), r: vec![ROp::ToEof(64)] }, EndScript { w: burst(&oa, &ob), r: vec![ROp::ToEof(1)] }],
         }],
         ..Case::default()
@@ -314,7 +314,7 @@ fn victim_workload() -> impl Strategy<Value = Case> {
                 port: 1,
                 pad: vec![],
                 delay: 0,
-                park: None,
+                park: None, cancel: None,
                 ends: [EndScript { w: vec![WOp::Write(2); n], r: vec![] }, EndScript { w: vec![], r }],
             };
             // later activity: delay the others a little so that they start after the victim
@@ -487,7 +487,7 @@ pub fn c05(ctx: &Ctx, rep: &mut Report) {
         w.insert(pos as usize, empty);
         w.push(WOp::Shutdown);
         Case {
-            streams: vec![StreamSpec { side, port: 7, pad: vec![], delay: 0, park: None, ends: [EndScript { w, r: vec![ROp::ToEof(64)] }, EndScript { w: vec![WOp::Shutdown], r: vec![ROp::ToEof(64)] }] }],
+            streams: vec![StreamSpec { side, port: 7, pad: vec![], delay: 0, park: None, cancel: None, ends: [EndScript { w, r: vec![ROp::ToEof(64)] }, EndScript { w: vec![WOp::Shutdown], r: vec![ROp::ToEof(64)] }] }],
             ..Case::default()
         }
     }, |c| {
